@@ -105,6 +105,30 @@ def zero_evaluation_failure(searches, x_scale=1.0):
     return any(t[2] is None and ((t[0] == t[1] and len(t) > 5 and t[5]) or t[3] <= tiny) for t in searches)
 
 
+def raise_witness(act):
+    """Witness of an activation that raised; for a restart, also what reconstruct-by-differences
+    (K11) makes of the checkpoint's pairs, recomputed with the solver's own arithmetic: a step at
+    rounding level can vanish when it is subtracted from a reconstructed point (K14)."""
+    w = {"exception": repr(act.exc)[:300]}
+    ck = getattr(act, "checkpoint", None)
+    try:
+        if ck is not None and np.asarray(ck.hess_inv.sk).size:
+            m = int(act.cfg.get("maxcor", 10))
+            sk = np.asarray(ck.hess_inv.sk, dtype=float)[-m:]
+            yk = np.asarray(ck.hess_inv.yk, dtype=float)[-m:]
+            xs, gs = [np.asarray(ck.x, dtype=float)], [np.asarray(ck.jac, dtype=float)]
+            for s_i, y_i in zip(sk[::-1], yk[::-1]):
+                xs.insert(0, xs[0] - s_i)
+                gs.insert(0, gs[0] - y_i)
+            sy_ck = np.sum(sk * yk, axis=1)
+            sy_re = np.array([(xs[i + 1] - xs[i]).dot(gs[i + 1] - gs[i]) for i in range(len(xs) - 1)])
+            w["restored_pair_degenerate"] = bool(np.any((sy_ck > 0) & ~(sy_re > 0)))
+            w["checkpoint_min_relative_step"] = float(np.min(np.max(np.abs(sk), axis=1)) / max(float(np.max(np.abs(xs[-1]))), 1e-300))
+    except Exception:  # noqa: BLE001 - diagnostics only
+        pass
+    return w
+
+
 def compare_restart(problem, cfg, blob, x_ref, maxiter, pseed, stats, n_pert=5, ref_act=None, rel_step_tol=None, ref_searches_before=None):
     """DESIGN 7.2: is the restart as close to the reference as rounding allows?
 
@@ -114,7 +138,7 @@ def compare_restart(problem, cfg, blob, x_ref, maxiter, pseed, stats, n_pert=5, 
     stats["activations"] += 1
     stats["events"] += act.n_events
     if act.result is None:
-        return "raised", {"exception": repr(act.exc)[:300]}, act
+        return "raised", raise_witness(act), act
     x = np.asarray(act.result.x, dtype=float)
     xs_scale = float(np.max(np.abs(x_ref))) if x_ref.size and np.all(np.isfinite(x_ref)) else 1.0
     if garbage_direction(act, xs_scale) or (ref_act is not None and ref_act.ls_log and garbage_direction_last(ref_act, xs_scale)):
